@@ -190,6 +190,29 @@ def execute(run, prop, shard):
                 return any(g.kind == f0.kind and g.exc == f0.exc and g.backend == f0.backend for g in oo.findings)
 
             run.finding(f, prog, owned=own, reshrink=still, ctx={"ref": out.ref_env.get(f.backend if f.backend in out.ref_env else "pol"), "real": out.real_env.get(f.backend if f.backend in out.real_env else "pol")})
+    # (f) several same-named column versions inside one subquery (labels inside, names outside)
+    n_col = 150 if run.tier == "quick" else 900
+    for i in range(n_col):
+        s = pipeline.case_seed(run.seed + 47, run.tier, si, i)
+        try:
+            prog = gen.gen_collide(s)
+        except Exception:
+            run.counters["generator_failures"] += 1
+            continue
+        out = runner.run_program(prog, opts={"reexport_every": 1}, be_cache=cache)
+        run.case(prog)
+        run.counters["collision_programs"] += 1
+        run.counters["probes_judged"] += out.probes_judged
+        for f in out.findings:
+            if f.kind == "harness":
+                continue
+            own = f.kind.startswith(("value:", "exc:sqlite", "san:I3", "reexport:sqlite", "names:"))
+
+            def still(q, f0=f):
+                oo = runner.run_program(q, opts={"reexport_every": 1})
+                return any(g.kind == f0.kind and g.exc == f0.exc and g.backend == f0.backend for g in oo.findings)
+
+            run.finding(f, prog, owned=own, reshrink=still)
     run.extra["subquery_decisions_observed"] = {str(k): int(v) for k, v in M.INT.subquery_reasons.items()}
     if shard is None:
         run.inconclusive_if(M.INT.hits.get("Cache.requires_subquery", 0) == 0, "requires_subquery was never observed")
@@ -204,7 +227,9 @@ def finalize(run, prop):
         "all ordered pairs and sampled ordered triples plus random orders (length 2-6) of {filter, filter on window column, element-wise / window / "
         "aggregate mutate, summarize, slice_head, arrange, group_by, join with prepared sides, union, select, rename} with name-based references, "
         "with and without alias() at 1-2 random positions; (a) accepted on SQLite => export == REF (== Polars), (b) alias() before a refused verb "
-        "makes it accepted (left, right or both inputs), (c) simple-class pipelines never raise SubqueryError, (d) Polars never raises it, (e) I3",
+        "makes it accepted (left, right or both inputs), (c) simple-class pipelines never raise SubqueryError, (d) Polars never raises it, (e) I3, "
+        "(f) overwritten columns whose older versions are used through kept references after a subquery (same name several times inside it): "
+        "export == REF, second export and second build_query identical",
         pipeline.ASSUME_COMMON,
     )
 
